@@ -19,6 +19,8 @@ def _number(x):
     np.timedelta64(1,'D') == 1 and == np.timedelta64(24,'h'), which is == 24; np.datetime64('NaT') is not even equal to itself while pd.NaT is a single object
     """
     if isinstance(x, (np.datetime64, np.timedelta64)):
+        if np.isnat(x):
+            return pd.NaT
         if np.datetime_data(x.dtype)[0] in ('ps', 'fs', 'as'): # pandas would truncate to nanoseconds
             return x
         try:
@@ -114,6 +116,12 @@ def eq(x, y):
             ykey, yval = zip(*sorted(y.items()))
             return eq(xkey, ykey) and eq(xval, yval)
         else:
+            return False
+    elif isinstance(x, np.timedelta64) or isinstance(y, np.timedelta64): 
+        # a duration pandas does not hold (years / months, finer than nanoseconds). numpy's == also equates it with the int it counts: 1 == timedelta64(1,'Y') == timedelta64(12,'M') == 12
+        try:
+            return isinstance(x, np.timedelta64) and isinstance(y, np.timedelta64) and bool(x == y)
+        except TypeError: # years / months have no common unit with weeks...attoseconds
             return False
     elif isinstance(x, float) and np.isnan(x):
         return isinstance(y, float) and np.isnan(y)    
